@@ -282,3 +282,33 @@ def pad_leg(v, acc, timeout=600):
     for r in recs:
         if r.get("kind") == "mismatch":
             v.fail("buffer-alignment", r)
+
+
+def retain_legs(v, acc, thorough=False, timeout=1800):
+    """Legs M and G on the overlap filter of match() (V2Retain): invariants of the transcribed loop on every small candidate set, then
+    every set injected into the real match() through the VerifCandidates hook."""
+    mc = "V2RetainMC.cfg"
+    r = tlc_require_ok(tlc("V2RetainMC", mc, timeout=timeout), "V2Retain model check")
+    acc.add_tlc(r, mc)
+    cfg = "V2RetainGen.cfg"
+    text = cfg_text(cfg)
+    if thorough:
+        text = text.replace("C4s = {2, 4}", "C4s = {2, 3, 4}")
+    gen = tlc_require_ok(tlc("V2RetainMC", cfg, timeout=timeout, workers=4, files={cfg: text}), "V2Retain vector generation")
+    acc.add_tlc(gen, cfg)
+    out = os.path.join(sub("out"), "retain.ndjson")
+    if os.path.exists(out):
+        os.remove(out)
+    rc, txt, _ = go_overlay_test("v2", ["common/util_test.go", "v2/retain_driver_test.go"], "^TestVerifRetainReplay$", timeout=timeout,
+                                 env={"VERIF_IN": gen.outpath, "VERIF_OUT": out})
+    recs = read_ndjson(out)
+    summ = [r for r in recs if r.get("kind") == "summary"]
+    if vlib.build_failed(txt) or not summ or summ[0]["vectors"] == 0:
+        raise vlib.Inconclusive("retain replay driver failed:\n" + txt[-2500:])
+    s = summ[0]
+    acc.evaluations += s["vectors"]; acc.nontrivial += s["nontrivial"]
+    acc.extra["retain_replay"] = {"candidate_sets": s["vectors"], "with_a_dropped_candidate": s["nontrivial"], "mismatches": s["mismatches"]}
+    acc.samples += [{"candidates": x} for x in (s.get("samples") or [])[:1]]
+    for r in recs:
+        if r.get("kind") == "mismatch":
+            v.fail("retain-replay", {"why": r["why"], "spec": r["spec"]})
